@@ -150,6 +150,12 @@ class QNoiseScheduler(tf.keras.callbacks.Callback):
           for quantizer in quantizers:
             if hasattr(quantizer, "qnoise_factor"):
               all_quantizers.append(quantizer)
+      # Recurrent layers (and QBidirectional) keep their quantizers on the
+      # cell(s) and only expose them through get_quantizers().
+      if not hasattr(layer, "quantizers") and hasattr(layer, "get_quantizers"):
+        for quantizer in layer.get_quantizers():
+          if hasattr(quantizer, "qnoise_factor"):
+            all_quantizers.append(quantizer)
 
     return all_quantizers
 
